@@ -37,7 +37,7 @@ Fault(t)  == IF t \in DOMAIN FS.faults THEN FS.faults[t] ELSE "none"
 FullWrites(t) == FlattenSeq([i \in DOMAIN Outs(t) |-> << <<"partial", Outs(t)[i]>>, <<"complete", Outs(t)[i]>> >>])
                  \o [i \in DOMAIN Extras(t) |-> <<"extra", Extras(t)[i]>>]
 Writes(t) == CASE Fault(t) = "exit_before_write" -> <<>>
-               [] Fault(t) \in {"exit_after_partial", "sigkill_self", "sigkill_shell"} -> <<FullWrites(t)[1]>>
+               [] Fault(t) \in {"exit_after_partial", "sigkill_self", "sigterm_self", "sigint_self", "sigkill_shell"} -> <<FullWrites(t)[1]>>
                [] Fault(t) = "skip_output" -> SelectSeq(FullWrites(t), LAMBDA w : w[2] # Last(Outs(t)))
                [] OTHER -> FullWrites(t)
 CmdOK(t) == Fault(t) \in {"none", "skip_output"}
